@@ -113,3 +113,55 @@ def run_c17(tier):
         "numeric names below 2^30 and fresh counters far from u32 overflow (as in the property's quantifier)",
         "the invariants FreshIsNew, BelowCtr, NamesInjective, RoundTrip are checked by TLC on SlotTable.tla itself; the Rust "
         "code is bound by replaying every behaviour and comparing equality patterns and printed names"])
+
+
+def run_c10(tier):
+    t0 = time.time()
+    prop = "C10"
+    cfg = open(os.path.join(SPEC, "MC_Group.cfg")).read()
+    findings, summaries, tl = [], [], {}
+    for deg in [2, 3, 4]:
+        logp, st = run_tlc_root("C10_S%d" % deg, "MC_Group", {"MCDeg": deg, "MCMaxGens": 3}, cfg)
+        require_tlc_ok(st, logp, "MC_Group deg %d" % deg)
+        perms = list(tlcout.tagged_lines(logp, "GRPERMS"))[0]
+        trans = list(tlcout.tagged_lines(logp, "GRTRANS"))
+        if len(trans) != st["generated"] - 1:
+            raise ToolError("transition table incomplete: %d lines for %d transitions" % (len(trans), st["generated"] - 1))
+        tpath = os.path.join(os.path.dirname(logp), "table.json")
+        json.dump({"deg": deg, "perms": perms["perms"], "trans": trans}, open(tpath, "w"))
+        tl[deg] = (st, trans, perms["perms"])
+        for variant in (["default", "checks"] if tier == "thorough" else ["default"]):
+            recs = jsonl(run_bin(variant, "gr_replay", ["table", tpath, ncpu()]))
+            for r in recs:
+                r["variant"] = variant
+                (summaries if r["kind"] == "summary" else findings).append(r)
+    # random generator sets on 5 and 6 points: recorded from the real code, validated by TLC
+    cases = 40 if tier == "quick" else 300
+    trace = os.path.join(OUT, "tlc", "C10_trace.ndjson")
+    recs = jsonl(run_bin("default", "gr_replay", ["record", trace, cases]))
+    findings += [r for r in recs if r["kind"] == "finding"]
+    ok, tst, evno, excerpt = validate_trace("C10_trace", "TraceGroup", {"TraceDeg": 2, "TraceMaxGens": 1}, trace, timeout=3000)
+    lines = open(trace).read().splitlines()
+    if not ok:
+        e = json.loads(lines[evno - 1])
+        findings.append({"kind": "finding", "prop": prop, "what": "recorded group case on %d points disagrees with the brute-force closure" % e["deg"],
+                         "site": "", "detail": {"event_no": evno, "gens": e["gens"], "more": e["more"], "count1": e["count1"],
+                                                "count2": e["count2"], "grew": e["grew"], "naming": e["naming"]}})
+    st4, trans4, perms4 = tl[4]
+    s = trans4[len(trans4) // 2]
+    e0 = json.loads(lines[0]) if lines else {}
+    cov = {"states": sum(v[0]["distinct"] for v in tl.values()) + tst["distinct"],
+           "transitions": sum(v[0]["generated"] for v in tl.values()) + tst["generated"],
+           "traces_validated_against_impl": sum(x["group_cases"] + x["egraph_cases"] for x in summaries) + (len(lines) if ok else 0),
+           "samples": [{"from_group_order": len(s["from"]), "added_generators": [perms4[i - 1] for i in s["gens"]],
+                        "to_group_order": len(s["to"]), "grew": s["grew"], "orbits": s["orbits"]},
+                       {"recorded_case": {k: e0.get(k) for k in ["deg", "gens", "more", "count1", "count2", "grew"]}}],
+           "evaluations": sum(x["group_cases"] + x["egraph_cases"] for x in summaries) + len(lines),
+           "distinct_nontrivial": sum(1 for v in tl.values() for t in v[1] if t["grew"]),
+           "rule": "every transition (subgroup, generator set of <=3 permutations) of S2,S3,S4 [30 subgroups of S4 x 2325 sets] replayed "
+                   "on the real Group (two representations of the from-group, 5 slot namings) and through unions of a multi-slot leaf in "
+                   "the e-graph; %d random cases on 5/6 points recorded and validated by TLC; non-trivial = transitions that grow the group" % cases,
+           "exhaustive": True, "tlc": {("S%d" % d): v[0] for d, v in tl.items()}, "tlc_trace": tst, "replay": summaries}
+    finish(prop, tier, t0, findings, cov, assumptions=[
+        "hook H1 (verif_group.rs) is a logic-free wrapper around the private Group<Perm>",
+        "Group.tla computes subgroups by brute-force closure; IsGroup/Lagrange/OrbitsPartition checked by TLC on every state"])
